@@ -240,6 +240,8 @@ def equals(a, b):
 
 
 def contains(container, item):
+    if isinstance(container.t, ty.Opt):
+        container = ty.opt_val(container)      # `x in None` raises TypeError: not modelled (declared types respected)
     t = container.t
     if t == ty.Str:
         return z3.Contains(container.e, item.e)
